@@ -83,6 +83,9 @@ func guardedAgainst(b *ssa.BasicBlock, v ssa.Value, g *ssa.Global) bool {
 		if !ok {
 			continue
 		}
+		if pb.Succs[0] == c && predicateExcludesSentinel(iff.Cond, v, g) {
+			return true
+		}
 		bo, ok := iff.Cond.(*ssa.BinOp)
 		if !ok || (bo.Op != token.EQL && bo.Op != token.NEQ) {
 			continue
@@ -106,6 +109,50 @@ func guardedAgainst(b *ssa.BasicBlock, v ssa.Value, g *ssa.Global) bool {
 	return false
 }
 
+// predicateExcludesSentinel: cond is a call `v.m(...)` of a method of the package that answers true only
+// where its receiver was found to differ from the sentinel (`if s == nil || s == emptyX { return false }`):
+// on the true edge v is not the sentinel.
+func predicateExcludesSentinel(cond ssa.Value, v ssa.Value, g *ssa.Global) bool {
+	call, ok := cond.(*ssa.Call)
+	if !ok || len(call.Call.Args) == 0 {
+		return false
+	}
+	if call.Call.Args[0] != v && root(call.Call.Args[0]) != root(v) {
+		return false
+	}
+	f := call.Call.StaticCallee()
+	if f == nil || len(f.Blocks) == 0 || f.Signature.Recv() == nil || f.Signature.Results().Len() != 1 {
+		return false
+	}
+	if b, ok := f.Signature.Results().At(0).Type().Underlying().(*types.Basic); !ok || b.Kind() != types.Bool {
+		return false
+	}
+	recv := f.Params[0]
+	n := 0
+	for _, ret := range returnsOf(f) {
+		if k, ok := constBool(ret.Results[0]); ok && !k {
+			continue
+		}
+		n++
+		if !guardedAgainst(ret.Block(), recv, g) {
+			// `return a && b` compiles to a phi: the edges that can carry true must be guarded
+			ph, isPhi := ret.Results[0].(*ssa.Phi)
+			if !isPhi {
+				return false
+			}
+			for i, e := range ph.Edges {
+				if k, ok := constBool(e); ok && !k {
+					continue
+				}
+				if !guardedAgainst(ph.Block().Preds[i], recv, g) {
+					return false
+				}
+			}
+		}
+	}
+	return n > 0
+}
+
 // edgeDiffers: taking the edge pred->succ establishes v != sentinel.
 func edgeDiffers(pred, succ *ssa.BasicBlock, v ssa.Value, g *ssa.Global) bool {
 	if len(pred.Instrs) == 0 || len(pred.Succs) != 2 || pred.Succs[0] == pred.Succs[1] {
@@ -114,6 +161,9 @@ func edgeDiffers(pred, succ *ssa.BasicBlock, v ssa.Value, g *ssa.Global) bool {
 	iff, ok := pred.Instrs[len(pred.Instrs)-1].(*ssa.If)
 	if !ok {
 		return false
+	}
+	if pred.Succs[0] == succ && predicateExcludesSentinel(iff.Cond, v, g) {
+		return true
 	}
 	bo, ok := iff.Cond.(*ssa.BinOp)
 	if !ok || (bo.Op != token.EQL && bo.Op != token.NEQ) {
